@@ -398,8 +398,17 @@ mod keyprobe {
     impl Hash for $n { fn hash<H: Hasher>(&self, h: &mut H) { self.0.hash(h) } }
     impl Debug for $n { fn fmt(&self, f: &mut Formatter<'_>) -> std::fmt::Result { write!(f, "K({})", self.0) } }
     impl Task for $n { type Output = i64; fn execute<C: Context>(&self, _c: &mut C) -> i64 { bump(); $code * 100 + self.0 as i64 } }
+    impl From<u32> for $n { fn from(v: u32) -> Self { $n(v) } }
   } }
-  fam!(A, 0); fam!(B, 1); fam!(C, 2);
+  fam!(A, 0);
+  // B and C (and the resource families RA and RB below) are pairs of DIFFERENT types with the SAME type name (`..::keyprobe::_::Twin`):
+  // identity is the TypeId, not the printed type name
+  pub trait Carrier { type K; }
+  pub struct CB; pub struct CC; pub struct CRA; pub struct CRB;
+  const _: () = { fam!(Twin, 1); impl Carrier for CB { type K = Twin; } };
+  const _: () = { fam!(Twin, 2); impl Carrier for CC { type K = Twin; } };
+  pub type B = <CB as Carrier>::K;
+  pub type C = <CC as Carrier>::K;
 
   // resource families, two of them zero sized
   macro_rules! rfam { ($n:ident) => {
@@ -407,8 +416,12 @@ mod keyprobe {
     impl Hash for $n { fn hash<H: Hasher>(&self, h: &mut H) { self.0.hash(h) } }
     impl Debug for $n { fn fmt(&self, f: &mut Formatter<'_>) -> std::fmt::Result { write!(f, "K({})", self.0) } }
     impl MapKey for $n { type Value = i64; }
+    impl From<u32> for $n { fn from(v: u32) -> Self { $n(v) } }
   } }
-  rfam!(RA); rfam!(RB);
+  const _: () = { rfam!(Twin); impl Carrier for CRA { type K = Twin; } };
+  const _: () = { rfam!(Twin); impl Carrier for CRB { type K = Twin; } };
+  pub type RA = <CRA as Carrier>::K;
+  pub type RB = <CRB as Carrier>::K;
   macro_rules! ufam { ($n:ident) => {
     #[derive(Clone, PartialEq, Eq, Hash)] pub struct $n;
     impl Debug for $n { fn fmt(&self, f: &mut Formatter<'_>) -> std::fmt::Result { write!(f, "K(0)") } }
@@ -426,22 +439,22 @@ mod keyprobe {
   fn req(pie: &mut Pie<()>, fam: u32, v: u32) -> i64 {
     let mut s = pie.new_session();
     match fam {
-      0 => s.require(&A(v)), 1 => s.require(&B(v)), 2 => s.require(&C(v)),
+      0 => s.require(&A(v)), 1 => s.require(&B::from(v)), 2 => s.require(&C::from(v)),
       3 => s.require(&Box::new(A(v))), 4 => s.require(&Rc::new(A(v))), 5 => s.require(&Arc::new(A(v))),
-      _ => s.require(&Box::new(B(v))),
+      _ => s.require(&Box::new(B::from(v))),
     }
   }
   fn reqr(pie: &mut Pie<()>, fam: u32, v: u32) -> i64 {
     let mut s = pie.new_session();
-    match fam { 0 => s.require(&Rd(RA(v))), 1 => s.require(&Rd(RB(v))), 2 => s.require(&Rd(U1)), _ => s.require(&Rd(U2)) }
+    match fam { 0 => s.require(&Rd(RA::from(v))), 1 => s.require(&Rd(RB::from(v))), 2 => s.require(&Rd(U1)), _ => s.require(&Rd(U2)) }
   }
   fn edit(pie: &mut Pie<()>, fam: u32, v: u32, val: Option<i64>) {
     macro_rules! e { ($k:expr, $t:ty) => { { let m = pie.resource_state_mut::<$t>().get_global_map_mut(); match val { Some(x) => { m.insert($k, x); } None => { m.remove(&$k); } } } } }
-    match fam { 0 => e!(RA(v), RA), 1 => e!(RB(v), RB), 2 => e!(U1, U1), _ => e!(U2, U2) }
+    match fam { 0 => e!(RA::from(v), RA), 1 => e!(RB::from(v), RB), 2 => e!(U1, U1), _ => e!(U2, U2) }
   }
   fn bottom_up(pie: &mut Pie<()>, fam: u32, v: u32) {
     // the changed resource arrives as a boxed trait object, as a file watcher would hand it over
-    let boxed: Box<dyn KeyObj> = match fam { 0 => Box::new(RA(v)), 1 => Box::new(RB(v)), 2 => Box::new(U1), _ => Box::new(U2) };
+    let boxed: Box<dyn KeyObj> = match fam { 0 => Box::new(RA::from(v)), 1 => Box::new(RB::from(v)), 2 => Box::new(U1), _ => Box::new(U2) };
     let mut s = pie.new_session();
     let mut bu = s.create_bottom_up_build();
     bu.schedule_tasks_affected_by(boxed.as_ref());
